@@ -1,11 +1,11 @@
-package main
+package main_test
 
 // Core of the verification harness: decision entry points, statistics,
 // check registry (rapid run + replay), known-findings handling.
 //
-// This file is compiled together with a fresh copy of /repo/httpClient/main.go
-// (package main), so the production registries `funcs`, `biasListeners`,
-// `biases`, `decideHandler`, `functionsHandler` are in scope.
+// The harness is the external test package of the service: it is compiled together with a fresh copy of
+// /repo/httpClient/main.go, and export_test.go + h_access_test.go put the production registries `funcs`,
+// `biasListeners`, `biases` and the handlers `decideHandler`, `functionsHandler` in scope.
 
 import (
 	"bytes"
